@@ -64,8 +64,8 @@ func checkC13(h *harness.H, ci interface{}) *harness.Failure {
 		key = c.Text
 	}
 	h.S.Eval(key)
-	// all three modes, also for programs with contraction: in the non-polarized mode those may
-	// crash or deadlock (known finding N6), which is ignored here - only race reports count
+	// all three modes, also for programs with contraction (until N6 was repaired those could crash
+	// in the non-polarized mode; a failed run is still no verdict here - only race reports count)
 	modes := []int{0, 1, 2}
 	cfgs := cfgMatrix(c.Seed, modes, 1)
 	if c.Contraction {
@@ -86,7 +86,7 @@ func checkC13(h *harness.H, ci interface{}) *harness.Failure {
 			h.S.Count("run_" + res.Outcome.String())
 			h.Worker(1).RaceReports()
 			if cfg.Mode == 2 && c.Contraction {
-				h.S.Count("np_contraction_failure_ignored(N6)")
+				h.S.Count("np_contraction_run_failed")
 				continue
 			}
 			return &harness.Failure{Inconclusive: true, Msg: "run " + res.Outcome.String()}
